@@ -19,6 +19,8 @@ FIRST = {
     "C01-computed-name-key-cached-per-callsite": "exit 0 expected (each call site was executed once per harness) -> call-site-twice harness, added after reading the change's summary and before its run",
     "C05-quiesce-head-block-only": "exit 0 (bucket level was unreachable for Kani) -> epoch stubs (pin, decompose_tag, snooze) and designed-state bucket harnesses",
     "C03-get-hash-flag-before-value": "exit 0 (the R/G stubs covered load/store only; the change publishes the flag with swap) -> swap / fetch_or / compare_exchange on the flag stubbed with the same guarantee",
+    "C03-cow-eq-pointer-fast-path": "exit 0 under C03's and C14's checks (no two values sharing a start address were compared) -> C14 harness c14_str_alias_eq; reported by the C14 check (the change is in cow.rs)",
+    "C14-clone-empty-owned-aliases": "exit 0 in the quick tier (the empty-but-allocated owned Vec was a thorough-tier case) -> quick harness c14_slice_owned_empty",
     "C17-new-span-merges-current-not-parent": "exit 2 (Context stub lacked lookup_current) -> stub widened",
     "C17-filter-sees-empty-value": "exit 2 (closure annotation keyed to parameter names) -> annotation by position",
 }
